@@ -94,6 +94,26 @@ def cases(rng, tier):
             pass
         fx = rng.choice([2.5, -2.5, 1e20, -7.99, 0.999, 123456789.5, -0.0])
         yield Case(program=render(bi('ㅈㅅ', VL.float_expr(fx))), tag='to-int', monitor='c11_expect', data=str(int(fx)))
+    # real remainder: ㄴㅁ on a Float operand is the exact remainder of the truncated quotient (IEEE fmod, always
+    # representable), sign of the dividend — also where dividend and divisor have opposite signs and a naive
+    # `%`-then-correct formula rounds (seeded change S11g)
+    fpool = [0.1, -0.1, 1e-20, -1e-20, 5.5, -7.5, 7.25, -7.25, 1e300, -1e300, 5e-324, -5e-324, 2.0 ** 53 + 2, -(2.0 ** 53 + 2), 0.7, -0.7,
+             3.0, -3.0, 1e-5, -1e-5, 2.5, 1 / 3, -1 / 3, 123456.789, -123456.789, 1e22, -1e22]
+    dpool = [3, -3, 2, -2, 7, 3.0, -3.0, 0.7, -0.7, 1e-5, 2.5, -2.5, 1 / 3, 1e10, -1e10, 5e-324, 1.5e-300]
+    fl_pairs = [(a, d) for a in fpool for d in dpool] + [(a, d) for a in [7, -7, 1, -1, 10 ** 6 + 1, -(10 ** 6) - 1] for d in dpool if isinstance(d, float)]
+    if tier == 'quick':
+        fl_pairs = rng.sample(fl_pairs, 160)
+    for a, d in fl_pairs:
+        fa, fd = Fraction(a), Fraction(d)
+        q = abs(fa) // abs(fd) * (1 if (fa >= 0) == (fd >= 0) else -1)
+        r = fa - q * fd
+        rf = float(r)
+        assert Fraction(rf) == r
+        if rf == 0.0:
+            rf = math.copysign(0.0, float(a))
+        ea = VL.float_expr(a) if isinstance(a, float) else lit(a)
+        ed = VL.float_expr(d) if isinstance(d, float) else lit(d)
+        yield Case(program=render(bi('ㄴㅁ', ea, ed)), tag='rem-real', monitor='c11_expect', data=VL.py_float_repr(rf))
     # exhaustive small grid for quotient / remainder / modular power
     lim = 12 if tier == 'quick' else 40
     for a in range(-lim, lim + 1):
@@ -111,7 +131,7 @@ SPEC = {
     'stream': 'C11 arithmetic stream',
     'rule': 'integer tuples (1–6 operands, magnitudes to 2^200, all sign mixes): sums and products against exact host '
             'integers; distributivity / commutativity as program pairs; truncated quotient, remainder and q·d + r = n '
-            'recomputed by the program itself; exact powers; modular power / inverse against an independent oracle '
+            'recomputed by the program itself; real remainders (Float operands, all sign mixes, tiny / huge magnitudes) against exact rationals; exact powers; modular power / inverse against an independent oracle '
             'including the error cases; exact int/float order around 2^53 and 10^22; Boolean ㄱ / ㄷ truth tables; '
             'widening and conversions; exhaustive (n, d) ∈ [−12, 12]² (quick) / [−40, 40]² grid. Non-trivial: all but the grid',
     'trusted': ['host big-integer arithmetic as the oracle for sums / products / powers'],
